@@ -17,7 +17,7 @@ LEVEL = 'fault_enumeration'
 RULE = ('files: seeded writer call sequences (1-5 segments, zero tails on both sides of the 1000-word threshold, shared '
         'data in v0/v1, unreferenced trailing data, empty pool, w in {8,16,32,64}, versions 0-3, lzma presets) and a few '
         'real assembler outputs; per file: every strict prefix (complete for <= 4 KiB, structural boundaries + 256 seeded '
-        'beyond), lost 64/512-byte blocks, every single-field corruption of header and segment table from a value table, '
+        'beyond), lost 64/512-byte blocks, every single write() call of the writer lost, every single-field corruption of header and segment table from a value table, '
         'seeded payload bit flips and splices, stale tails after the intact file (1 byte .. 1.1 MB), a time-scaling probe (file + n vs 2n filler bytes). evaluations = variants opened; non-trivial: a variant that differs from the '
         'intact file; distinct = distinct (file digest, variant) pairs')
 STATE_MEASURE = 'distinct (version, w, structural region of the cut / corrupted field, reader verdict) tuples'
@@ -381,6 +381,20 @@ def run(case):
                 count(f'lost-block-{bs}')
                 states.add(f"v{case['version']}|w{case['w']}|lost:{region_of(k * bs, h, n)}|{verdict}")
                 _judge_damaged(b, verdict, detail, f'lost-block{bs}@{k}', viol)
+    # ---- 2b. one whole write() call of the writer lost (a reordered / dropped write: its range reads back as zeros)
+    acc = 0
+    for wi, wc in enumerate(write_calls):
+        if wc and acc + wc <= n:
+            b = bytearray(F)
+            b[acc:acc + wc] = bytes(wc)
+            b = bytes(b)
+            if b != F:
+                verdict, detail, dt, _ = open_variant(b, real=True)
+                evals += 1
+                count('lost-write-call')
+                states.add(f"v{case['version']}|w{case['w']}|lostwrite:{region_of(acc, h, n)}|{verdict}")
+                _judge_damaged(b, verdict, detail, f'lost-write#{wi}', viol)
+        acc += wc
     # ---- 3. every single-field corruption
     for name, b in field_variants(F, h):
         verdict, detail, dt, peak = open_variant(b, measure=True, real=True)
